@@ -16,19 +16,25 @@
 //!   from-scratch evaluation that reports the misuse reachable from the observed nodes.
 //!   Alphabet: Observe(i), SetVar(k), Stabilise, SubscribeStab(i), Drop(order).
 //!
-//! Families (`hx dev limits <family> <depth>`), recommended depths quick | thorough:
+//! Families (`hx dev limits <family> <depth>`), recommended depths quick | thorough; unit = one
+//! program; sizes are quick-tier program counts (thorough in brackets):
 //!
-//! | family            | what                                                   | quick | thorough |
-//! |-------------------|--------------------------------------------------------|-------|----------|
-//! | `height/ctor`     | `new_with_height(N)`, N=1..6 (10), SetMax M=1..8 (12)  |   7   |    8     |
-//! | `height/default`  | `IncrState::new()` then SetMax                         |   7   |    8     |
-//! | `misuse/cycle`    | cycles through 1-2 binds + >=1 other node, <=4 nodes    |   5   |    7     |
-//! | `misuse/cross`    | bind returning a node of another state                 |   5   |    7     |
-//! | `misuse/nested`   | stabilise from map fn / on_update / subscription       |   5   |    7     |
+//! | family               | what                                                       | units       | quick | thorough |
+//! |----------------------|------------------------------------------------------------|-------------|-------|----------|
+//! | `height/ctor`        | `new_with_height(N)`, N=1..6 (10), SetMax M=1..8 (12)      | 493         |   6   |    7     |
+//! | `height/default`     | `IncrState::new()` then SetMax                             | 153         |   6   |    7     |
+//! | `misuse/cycle-small` | cycles through 1-2 binds + >=1 other node, <=3 declared    | 502         |   6   |    7     |
+//! | `misuse/cycle-4`     | same, 4 declared nodes (quick: binds start switched on)    | 1241 (2482) |   4   |    6     |
+//! | `misuse/cross`       | bind returning a node of another state, <=3 (4) nodes      | 258         |   5   |    6     |
+//! | `misuse/nested`      | stabilise from map fn / on_update / subscription handler   | 218         |   5   |    6     |
 //!
-//! One unit = one program; all families are explored with digest pruning (closures are pure
-//! functions of values printed in the digest). The drop phase after an expected panic costs
-//! one extra action (`Drop(order)`), so depth d judges drops after panics at depth <= d-1.
+//! `hx dev` always uses the quick tier: append `+thorough` to a family name to get the
+//! thorough program set there (`height/ctor+thorough`); `height/ctor@N` / `misuse/cycle-4@n`
+//! restrict a family to one N / node count (development aids).
+//!
+//! All families are explored with digest pruning (closures are pure functions of values printed
+//! in the digest). The drop phase after an expected panic costs one extra action
+//! (`Drop(order)`), so depth d judges drops after panics at depth <= d-1.
 //!
 //! Rules: C19.accepts, C19.rejects, C19.message, C19.when, C19.shrink_panics, C19.cycle,
 //! C19.cross_state, C19.nested_stabilise, C19.drop_after_panic, C19.panic (panic in a
@@ -62,12 +68,22 @@ fn is_height(family: &str) -> bool {
     family.starts_with("height/")
 }
 
+/// `hx dev` always runs the quick tier; a family name ending in `+thorough` selects the
+/// thorough program set there (development aid; plans pass the tier instead).
+fn split_tier(family: &str, tier: Tier) -> (&str, Tier) {
+    match family.strip_suffix("+thorough") {
+        Some(f) => (f, Tier::Thorough),
+        None => (family, tier),
+    }
+}
+
 fn hprogs(job: &JobDef, tier: Tier) -> Rc<Vec<HProg>> {
     let key = format!("{}/{}", job.family, tier.name());
     if let Some(p) = HCACHE.with(|c| c.borrow().get(&key).cloned()) {
         return p;
     }
-    let p = Rc::new(height::family(&job.family, tier));
+    let (fam, tier) = split_tier(&job.family, tier);
+    let p = Rc::new(height::family(fam, tier));
     HCACHE.with(|c| c.borrow_mut().insert(key, p.clone()));
     p
 }
@@ -77,7 +93,8 @@ fn mprogs(job: &JobDef, tier: Tier) -> Rc<Vec<MProg>> {
     if let Some(p) = MCACHE.with(|c| c.borrow().get(&key).cloned()) {
         return p;
     }
-    let p = Rc::new(misuse::family(&job.family, tier));
+    let (fam, tier) = split_tier(&job.family, tier);
+    let p = Rc::new(misuse::family(fam, tier));
     MCACHE.with(|c| c.borrow_mut().insert(key, p.clone()));
     p
 }
@@ -111,5 +128,97 @@ pub fn history_from_choices(job: &JobDef, unit: usize, tier: Tier, choices: &[u1
         crate::driver::history_from_choices::<HeightWorld>(&hprogs(job, tier), job, unit, choices)
     } else {
         crate::driver::history_from_choices::<MisuseWorld>(&mprogs(job, tier), job, unit, choices)
+    }
+}
+
+#[cfg(test)]
+mod tests {
+    use super::*;
+    use crate::core::World;
+
+    fn cfg() -> Cfg {
+        Cfg { profile: crate::core::profile(), handler_order: Some(true), armed: vec![] }
+    }
+
+    /// programs and actions survive the JSON round trip and `replay` executes them
+    #[test]
+    fn json_round_trip_and_replay() {
+        crate::core::install_panic_hook();
+        for fam in ["height/ctor@2", "height/default"] {
+            let progs = height::family(fam, Tier::Quick);
+            assert!(!progs.is_empty());
+            for p in progs.iter().take(40) {
+                let j = HeightWorld::prog_json(p);
+                let back = HeightWorld::prog_from_json(&j).expect("prog parses");
+                assert_eq!(HeightWorld::prog_json(&back), j);
+                let mut w = HeightWorld::new(p, &cfg());
+                let mut hist = vec![];
+                for _ in 0..5 {
+                    let acts = w.enabled();
+                    let Some(a) = acts.last().cloned() else { break };
+                    let aj = HeightWorld::action_json(&a);
+                    assert_eq!(HeightWorld::action_from_json(&aj), Some(a.clone()));
+                    hist.push(aj);
+                    let _ = w.step(&a, true);
+                    if w.dead() {
+                        break;
+                    }
+                }
+                w.teardown();
+                let (_, explain, _) = replay(&cfg(), &j, &hist).expect("replay works");
+                assert!(!explain.is_empty() || hist.is_empty());
+            }
+        }
+        for fam in ["misuse/cycle-small", "misuse/cross", "misuse/nested"] {
+            let progs = misuse::family(fam, Tier::Quick);
+            assert!(!progs.is_empty());
+            for p in progs.iter().step_by(7) {
+                let j = MisuseWorld::prog_json(p);
+                let back = MisuseWorld::prog_from_json(&j).expect("prog parses");
+                assert_eq!(MisuseWorld::prog_json(&back), j);
+                let mut w = MisuseWorld::new(p, &cfg());
+                let mut hist = vec![];
+                for i in 0..5 {
+                    let acts = w.enabled();
+                    if acts.is_empty() {
+                        break;
+                    }
+                    let a = acts[(i * 3 + 1) % acts.len()].clone();
+                    let aj = MisuseWorld::action_json(&a);
+                    assert_eq!(MisuseWorld::action_from_json(&aj), Some(a.clone()));
+                    hist.push(aj);
+                    let _ = w.step(&a, true);
+                    if w.dead() {
+                        break;
+                    }
+                }
+                w.teardown();
+                replay(&cfg(), &j, &hist).expect("replay works");
+            }
+        }
+    }
+
+    /// the reference model of the misuse world on the three textbook programs
+    #[test]
+    fn textbook_misuse_panics() {
+        crate::core::install_panic_hook();
+        use misuse::*;
+        let run = |nodes: Vec<MNode>, hist: Vec<MAct>| -> Vec<String> {
+            let p = MProg { nodes, vars: [1, 1], sub_handler: true };
+            let (vs, explain, _) = crate::explore::run_history::<MisuseWorld>(&p, &cfg(), &hist);
+            assert!(vs.is_empty(), "{vs:?}");
+            explain
+        };
+        // let b = v.bind(|x| if x { m } else { c }); m = b.map(..)
+        let e = run(
+            vec![MNode::Bind { lhs: Src::Var(0), on: Target::Node(1) }, MNode::Map(Src::Node(0))],
+            vec![MAct::Observe(1), MAct::Stabilise, MAct::Drop(0)],
+        );
+        assert!(e[1].contains("Cycle reachable: panic"), "{e:?}");
+        assert!(e[2].contains("ok"), "{e:?}");
+        let e = run(vec![MNode::Bind { lhs: Src::Var(0), on: Target::Foreign(0) }], vec![MAct::Observe(0), MAct::Stabilise, MAct::Drop(1)]);
+        assert!(e[1].contains("Cross reachable: panic"), "{e:?}");
+        let e = run(vec![MNode::Map(Src::Var(0))], vec![MAct::Observe(0), MAct::SubscribeStab(0), MAct::Stabilise, MAct::Drop(3)]);
+        assert!(e[2].contains("NestedSub reachable: panic"), "{e:?}");
     }
 }
